@@ -146,7 +146,8 @@ class SnepServer(threading.Thread):
                 log.debug("bad request (0x{:02x})".format(request_data[1]))
                 response_code = 0xC2  # nfc.snep.BadRequest
                 response_data = b''
-        except ndef.DecodeError as error:
+        except (ndef.DecodeError, ValueError) as error:
+            # ndef raises ValueError for a record type that is not ascii
             log.error(repr(error))
             response_code = 0xC2  # nfc.snep.BadRequest
             response_data = b''
